@@ -36,6 +36,10 @@ type recipient struct {
 
 // recipientOf classifies the client-ID argument of a NewTransaction.
 func (P *Prog) recipientOf(id ssa.Value, own ssa.Value) recipient {
+	return P.recipientOfCtx(id, func(v ssa.Value) bool { return v == own }, P.requestOrigin)
+}
+
+func (P *Prog) recipientOfCtx(id ssa.Value, isOwnV func(ssa.Value) bool, origin func(ssa.Value) string) recipient {
 	id = stripConv(id)
 	if bs, ok := P.bytesOf(id); ok {
 		allZero := true
@@ -50,24 +54,27 @@ func (P *Prog) recipientOf(id ssa.Value, own ssa.Value) recipient {
 		switch a := u.X.(type) {
 		case *ssa.FieldAddr:
 			if f, _ := fieldOf(a); f == "hotline.ClientConn.ID" {
-				if a.X == own {
+				if isOwnV(a.X) {
 					return recipient{kind: "SELF"}
 				}
 				if c, ia := elemOfCall(a.X); c != nil {
 					switch calleeName(&c.Call) {
 					case "(hotline.ChatManager).Members":
-						return recipient{kind: "MEMBERS(" + P.requestOrigin(c.Call.Args[0]) + ")", elem: a.X, loop: ia}
+						return recipient{kind: "MEMBERS(" + origin(c.Call.Args[0]) + ")", elem: a.X, loop: ia}
 					case "(hotline.ClientManager).List":
 						return recipient{kind: "REGISTRY", elem: a.X, loop: ia}
 					}
 				}
 				if c := callValue(a.X); c != nil && calleeName(&c.Call) == "(hotline.ClientManager).Get" {
-					return recipient{kind: "CLIENT(" + P.requestOrigin(c.Call.Args[0]) + ")", elem: a.X}
+					return recipient{kind: "CLIENT(" + origin(c.Call.Args[0]) + ")", elem: a.X}
 				}
 				return recipient{kind: "OTHER:" + P.sym(a.X)}
 			}
 		case *ssa.SliceToArrayPointer:
 			if rf := P.requestFieldOf(a.X); rf != "" {
+				return recipient{kind: "TARGET(" + rf + ")"}
+			}
+			if rf := origin(a.X); rf != "?" && rf != "" {
 				return recipient{kind: "TARGET(" + rf + ")"}
 			}
 		}
@@ -131,27 +138,91 @@ func checkC12(R *Run) {
 		own := ssa.Value(fn.Params[0])
 		got := map[string]bool{}
 		var problems []string
+		type sendSite struct {
+			fn  *ssa.Function
+			ci  ssa.CallInstruction
+			ctx map[ssa.Value]ssa.Value // helper parameter → argument in the handler
+		}
+		var sends []sendSite
 		for _, ci := range callsIn(fn) {
 			c := ci.Common()
-			if calleeName(c) != "hotline.NewTransaction" {
+			if calleeName(c) == "hotline.NewTransaction" {
+				sends = append(sends, sendSite{fn, ci, nil})
 				continue
 			}
-			rc := P.recipientOf(c.Args[1], own)
+			// one level of helper: a repo function (not one of the classified broadcast primitives) that builds transactions
+			if _, classified := mutatorTable[calleeName(c)]; classified {
+				continue
+			}
+			if h, ok := c.Value.(*ssa.Function); ok && h.Blocks != nil && P.isRepoPkg(pkgOf(h)) && !handlerFn(regs, h) {
+				ctx := map[ssa.Value]ssa.Value{}
+				for i, p := range h.Params {
+					if i < len(c.Args) {
+						ctx[p] = c.Args[i]
+					}
+				}
+				for _, cj := range callsIn(h) {
+					if calleeName(cj.Common()) == "hotline.NewTransaction" {
+						sends = append(sends, sendSite{h, cj, ctx})
+					}
+				}
+			}
+		}
+		for _, snd := range sends {
+			ci := snd.ci
+			c := ci.Common()
+			inFn := snd.fn
+			isOwnV := func(v ssa.Value) bool {
+				if snd.ctx == nil {
+					return v == own
+				}
+				return snd.ctx[v] == own
+			}
+			origin := func(v ssa.Value) string {
+				if o := P.requestOrigin(v); o != "?" || snd.ctx == nil {
+					return o
+				}
+				// through a helper parameter: the origin of the argument in the handler
+				out := "?"
+				F := &Flow{P: P, Visit: func(x ssa.Value) bool {
+					if a, ok := snd.ctx[x]; ok && out == "?" {
+						if rf := P.requestFieldOf(a); rf != "" {
+							out = rf
+						} else {
+							out = P.requestOrigin(a)
+						}
+						return false
+					}
+					return out == "?"
+				}}
+				F.Back(v)
+				return out
+			}
+			rc := P.recipientOfCtx(c.Args[1], isOwnV, origin)
 			if rc.kind == "SELF" {
 				continue
 			}
-			tt, _ := globalName(c.Args[0])
+			tt, okT := globalName(c.Args[0])
+			if !okT && snd.ctx != nil {
+				if a, ok := snd.ctx[stripConv(c.Args[0])]; ok {
+					tt, _ = globalName(a)
+				}
+			}
 			tt = strings.TrimPrefix(tt, "hotline.")
 			src := rc.kind
+			fn := inFn
 			if rc.kind == "REGISTRY" {
 				// must be on the true edge of elem.Authorize(AccessReadChat)
 				cut := map[Edge]bool{}
 				n := 0
 				factEdges(fn, func(e Edge, f Fact) {
-					if f.Kind == "truth" {
-						if recv, p, _, ok := authorizeCall(f.V); ok && p == 9 && sameElem(recv, rc.elem) {
+					for _, pf := range P.expandFact(f, isAuthorizePrim, 0) {
+						if pf.kind != "truth" || len(pf.args) != 2 || pf.args[0] == nil {
+							continue
+						}
+						if k, ok := constInt(pf.args[1]); ok && k == 9 && sameElem(pf.args[0], rc.elem) {
 							n++
-							if f.Holds {
+							if pf.holds {
 								cut[e] = true
 							}
 						}
@@ -422,4 +493,13 @@ func derivesAll(v ssa.Value, pred func(ssa.Value) bool) bool {
 		return false
 	}
 	return walk(v)
+}
+
+func handlerFn(regs []HandlerReg, f *ssa.Function) bool {
+	for _, r := range regs {
+		if r.Fn == f {
+			return true
+		}
+	}
+	return false
 }
